@@ -65,10 +65,55 @@ def r8_attach_iff_tracked(facts):
     ctors = op_constructors(facts)
     c.floor("operation constructors (functions that attach a graph)", len(ctors), 17)
     total_rows = 0
+    n_prim = 0
     for d, why in ATTACH_PRIMITIVES.items():
         b = facts.body(d)
-        if b is not None:
-            c.ok("primitive:%s" % d, "%s:%d" % (F.rel(b["file"]), b["sp"][0]), "exception table: " + why, nontrivial=False)
+        if b is None:
+            continue
+        where = "%s:%d" % (F.rel(b["file"]), b["sp"][0])
+        if not TE.derivative_params(facts, b):
+            c.ok("primitive:%s" % d, where, "exception table: " + why, nontrivial=False)
+            continue
+        # an attach primitive (operand slice + optional derivative): whenever a derivative is supplied and some operand is
+        # tracked, the result must be attached and record every operand, in order; without a derivative nothing is recorded
+        n_prim += 1
+        inst = "primitive:%s" % d
+        rows, variables, err = TE.evaluate_constructor(facts, b, primitive=True)
+        if rows is None:
+            c.unk(inst, where, "guard outside the Boolean fragment: %s" % err)
+            continue
+        ops = TE.operand_params(facts, b)
+        names = []
+        for name, kind, _ in ops:
+            names.extend(["%s[%d]" % (name, i) for i in range(TE.SLICE_LEN)] if kind == "slice" else [name])
+        dnames = [n_ for n_, _ in TE.derivative_params(facts, b)]
+        problems = []
+        for asg, res, e, consulted in rows:
+            total_rows += 1
+            have = all(asg[("P", n_)] for n_ in dnames)
+            tracked = [n_ for n_ in names if asg.get(("T", n_))]
+            label = "derivative %s, tracked operands %s" % ("supplied" if have else "absent", tracked or "none")
+            if e is not None:
+                problems.append(("unclassified", "%s: %s" % (label, e)))
+                continue
+            if have and tracked:
+                if not isinstance(res, TE.Arr) or res.same is not None:
+                    problems.append(("unclassified", "%s: result not modelled" % label))
+                elif not res.tracked:
+                    problems.append(("violated", "%s: the result is not attached, the path to %s is silently dropped" % (label, tracked)))
+                elif [k for k in (res.children or [])] != names:
+                    problems.append(("violated", "%s: recorded operands %s differ from the operands %s (order / multiplicity matter: slot i of the derivative belongs to operand i)"
+                                     % (label, res.children, names)))
+            elif not have and isinstance(res, TE.Arr) and res.same is None and (res.tracked or [k for k in (res.children or []) if k is not None]):
+                problems.append(("violated", "%s: a graph is attached without a derivative" % label))
+        if problems:
+            kind = "violated" if any(p[0] == "violated" for p in problems) else "unclassified"
+            msg = "; ".join(sorted({p[1] for p in problems if p[0] == kind}))[:600]
+            (c.bad if kind == "violated" else c.unk)(inst, where, msg)
+        else:
+            c.ok(inst, where, "attach primitive: derivative supplied and some operand tracked => attached with all %d modelled operands in order; no derivative => nothing recorded (%d assignments)"
+                 % (len(names), len(rows)))
+    c.floor("attach primitives taking an optional derivative", n_prim, 2)
     for b in ctors:
         where = "%s:%d" % (F.rel(b["file"]), b["sp"][0])
         inst = "op:%s" % b["def"]
